@@ -133,8 +133,12 @@ impl Scenario for Hg {
             _ => true,
         }
     }
-    fn fingerprint(&self, _w: &World, x: &X) -> String {
-        format!("{:?}", x.completions)
+    fn fingerprint(&self, w: &World, x: &X) -> String {
+        // the state of held clones (still held / released as ready / released with an error,
+        // error already reported) decides which release actions remain and what they do
+        let g = w.inner.lock().unwrap();
+        let held: Vec<(bool, bool, bool)> = g.held.iter().map(|h| (h.released, h.fail, h.fail_reported)).collect();
+        format!("{:?}|{:?}", x.completions, held)
     }
     fn before(&self, w: &World, x: &mut X, a: &Action) {
         if let Action::Complete(k, o) = a {
@@ -301,6 +305,8 @@ impl Scenario for Hg {
         self.after(w, x, &Action::Tick, &mut v);
         out.extend(v);
         match &w.callers[0].phase {
+            // which attempt's error all-attempts-failed carries is not specified by the property
+            Phase::Done(Outcome::Layer(t)) if t.starts_with("AllAttemptsFailed") => "layer:AllAttemptsFailed".into(),
             Phase::Done(o) => o.tag(),
             p => format!("{p:?}"),
         }
